@@ -31,7 +31,8 @@ Print Assumptions C05_remove_once.
 (* Life cycle, at every moment of every schedule (guard: no id handed out twice, see
    C05_fresh_if_few): what the owning service's handler has seen of connection c is nothing,
    or one Add followed by messages of c in arrival order, or that followed by one Remove
-   (session already gone from the map) and one close callback - after which NOTHING of c. *)
+   (session already gone from the map), the close callback registered for that session with
+   the handler component and the front's close callback, once each - after which NOTHING of c. *)
 Theorem C05_lifecycle : forall n tr c,
   let s := run_from (init_with n) tr in
   f_reused (fr s) = false ->
@@ -57,6 +58,18 @@ Theorem C05_lifecycle_end : forall n tr c,
     subseq (msgs_before_remove c (posted s)) (arrived_of s c).
 Proof. exact lifecycle_end. Qed.
 Print Assumptions C05_lifecycle_end.
+
+(* The connection object's Close() may return nil or an error (tls: closeNotify to a peer that
+   is gone), and Close() may be called by any goroutine, any number of times: the connection
+   counts as closed exactly when one call went through the latch, and then - whatever that
+   call's conn.Close() returned - the Remove was posted once and the callbacks fired once. *)
+Theorem C05_close_outcome : forall n tr c k,
+  let s := run_from (init_with n) tr in
+  conn_of s c = Some k ->
+  (c_latch k = false -> c_cret k = 0 /\ count_remove c (posted s) = 0%nat /\ c_ncb k = 0) /\
+  (c_latch k = true -> (c_cret k = 1 \/ c_cret k = 2) /\ count_remove c (posted s) = 1%nat /\ c_ncb k = 1).
+Proof. exact close_outcome. Qed.
+Print Assumptions C05_close_outcome.
 
 (* The owning service, in the middle of a PushMsg, reaches a target whose session was removed:
    the push is dropped - the service moves on to its next target and nothing else changes. *)
@@ -186,7 +199,7 @@ Definition ex_ops : list op :=
 
 Example C05_example_obs :
   model_obs ex_ops =
-  Obs [HAdd 1 2; HAdd 2 3; HMsg 1 2 7; HRemove 1 2 true; HCloseCb 1 2]
+  Obs [HAdd 1 2; HAdd 2 3; HMsg 1 2 7; HRemove 1 2 true; HOnClose 1 2; HCloseCb 1 2]
       [CFin 1 1 1 1 0 true; CFin 2 0 0 1 1 false] 3 0 false false.
 Proof. vm_compute. reflexivity. Qed.
 
@@ -215,7 +228,7 @@ Proof. vm_compute. reflexivity. Qed.
 
 Example C05_example_flood_released :
   model_obs (flood_ops ++ [OHeartbeat 1; OPush [1]; OCloseExt 1; ODrain]) =
-  Obs [HAdd 1 2; HRemove 1 2 true; HCloseCb 1 2] [CFin 1 1 1 10027 0 true] 0 0 false false.
+  Obs [HAdd 1 2; HRemove 1 2 true; HOnClose 1 2; HCloseCb 1 2] [CFin 1 1 1 10027 0 true] 0 0 false false.
 Proof. vm_compute. reflexivity. Qed.
 
 (* 130 clients connect while the service is busy; then it catches up *)
@@ -229,6 +242,14 @@ Example C05_example_burst_done :
   pipeline s = [] /\ length (conns s) = 130%nat /\ length (add_ids (hlog_of s)) = 130%nat.
 Proof. vm_compute. repeat split. Qed.
 
+(* conn.Close() reports an error (TLS peer gone with a RST): the life cycle is the same *)
+Example C05_example_close_error :
+  let s := exec_ops [OConnect 1; OCloseErr 1; OSend 1 PHandshake; ORelease 1; OSend 1 PAck; ORelease 1;
+                     OClientClose 1; ORelease 1; ODrain] in
+  hlog_of s = [HAdd 1 2; HRemove 1 2 true; HOnClose 1 2; HCloseCb 1 2] /\
+  option_map c_cret (conn_of s 1) = Some 2.
+Proof. vm_compute. split; reflexivity. Qed.
+
 (* the wrap, as documentation: with the counter moved (hook) so that an id is handed out
    while still live, two live sessions share id 2, connection 1's message is handled under
    connection 2's session and connection 1 is never removed - the guard is necessary *)
@@ -237,7 +258,7 @@ Example C05_wrap_exhibit :
                      OSetNext 1; OConnect 2; ODrain;
                      OSend 1 (PData 5); ORelease 1; OClientClose 1; ORelease 1; ODrain] in
   f_reused (fr s) = true /\
-  hlog_of s = [HAdd 1 2; HAdd 2 2; HMsg 2 2 5; HRemove 2 2 true; HCloseCb 2 2].
+  hlog_of s = [HAdd 1 2; HAdd 2 2; HMsg 2 2 5; HRemove 2 2 true; HOnClose 2 2; HCloseCb 2 2].
 Proof. vm_compute. split; reflexivity. Qed.
 
 (* the counter at the wrap: ... 2^32-1, then 1 (0 skipped), 2 *)
